@@ -444,6 +444,9 @@ def r17_borrowed(ctx):
     from . import c07, c08
     ctx.borrow(c07.r07_5, 'R17.5')
     ctx.borrow(c08.r08_clip, 'R17.6')
+    # the length in front of a text payload is a variable-length quantity: a text of 16384 bytes in the file's charset has the
+    # length bytes 81 80 00 (shared with C08 R08.1)
+    ctx.borrow(c08.r08_vlq, 'R17.9')
 
 
 def r17_nested(ctx):
